@@ -565,7 +565,7 @@ func replayWithBound(e *Engine, o *Obligation, dir string, bound int, dropGoal b
 	// bound plain ints to keep allocations small
 	for _, p := range params {
 		if p.val.Ty.K == TInt {
-			cons = append(cons, Le(p.val.T, IntLit(1<<20)), Ge(p.val.T, IntLit(-(1 << 20))))
+			cons = append(cons, Le(p.val.T, IntLit(1<<20)), Ge(p.val.T, IntLit(-(1<<20))))
 		}
 	}
 
